@@ -73,6 +73,8 @@ def translate(ctx):
     ctx.extra.setdefault('coverage', {})['translator_available'] = ok
     if not ok:
         ctx.notes.append(f'effects translator failed closed ({why}); C10 rests on the dynamic monitor alone in this run')
+        ctx.obligations += 1
+        ctx.problem('proof', 'gen_effects', None, f'the effect-site table could not be regenerated from the source (translator failed closed: {why})')
         return
     _BAD_SITES = list((info or {}).get('bad_sites', []))
     cov = ctx.extra.setdefault('coverage', {})
